@@ -82,7 +82,7 @@ def run(tool, tier, seed):
                  else ['real code disagrees with the spec on input %s: expected %s, got %s' % (r['input'], r['expected'], r['actual'])],
                  'bounded': True, 'bound': tool.get('bound', 'enumerated + sampled inputs, see witness/src/main.rs') + (' (random budgets x10 in the thorough tier)' if tier == 'thorough' else '')}
             if r['found']:
-                o['witness'] = {'domain': dom, 'input': r['input'], 'expected': r['expected'], 'actual': r['actual']}
+                o['witness'] = {'domain': dom, 'input': r['input'], 'expected': r['expected'], 'actual': r['actual'], 'seed': r.get('seed', 1)}
             obls.append(o)
             metas.append(r.get('cmd', ''))
         return obls, {'tool': 'witness', 'cmd': ' ; '.join(metas), 'wall_s': round(time.time() - t0, 2)}
